@@ -1,6 +1,7 @@
 package vsched
 
 import (
+	"os"
 	"sync"
 	"unsafe"
 )
@@ -227,7 +228,15 @@ func (m *Mutex) Unlock() {
 		e.race.release(e.cur, m)
 	}
 	m.locked = false
+	if unlockPoint || e.cfg.UnlockPoints {
+		e.point(opYield, "unlocked", callerSite(2))
+	}
 }
+
+// unlockPoint (VUNLOCKPOINT=1, for experiments) / Config.UnlockPoints (per scenario): a
+// scheduling point right after every Mutex.Unlock, so that a preemption between an Unlock and the
+// plain statement that follows it is explored. Off by default: it multiplies the tree by 1.5-3.
+var unlockPoint = os.Getenv("VUNLOCKPOINT") != ""
 
 // RWMutex replaces sync.RWMutex.
 type RWMutex struct {
@@ -286,6 +295,9 @@ func (m *RWMutex) Unlock() {
 		ex.race.release(ex.cur, m)
 	}
 	m.w = false
+	if unlockPoint || ex.cfg.UnlockPoints {
+		ex.point(opYield, "unlocked", callerSite(2))
+	}
 }
 
 func (m *RWMutex) RLock() {
